@@ -1,15 +1,15 @@
-\* every selection kind alone and nested (not / and / many-way or) in up to two groups, pairs of kinds under or/xor, then save+load (twice), with at most one link kind or join;
-\* shapes 1-d and 2-d.
+\* every selection kind alone and nested (not / and / many-way or) in one group, with a link kind and/or a join kind, then save+load (twice):
+\* every history of <= 4 actions; shapes 1-d and 2-d.
 CONSTANTS
   SelKinds <- g_SelKinds
   LinkKinds <- g_LinkKinds
   JoinKinds = {"j11", "j1N", "jNN"}
   Shapes = {"s1", "s2"}
-  MaxGroups = 2
+  MaxGroups = 1
   Nest = TRUE
-  Pairs = TRUE
+  Pairs = FALSE
   MaxSaves = 2
 INIT Init
 NEXT Next
-CONSTRAINT D3
+CONSTRAINT D4
 PROPERTY Prop_SaveLoadIsIdentity
